@@ -3,6 +3,7 @@
 package server
 
 import (
+	"context"
 	"net/http"
 	"sort"
 
@@ -122,4 +123,25 @@ func (e *MetaCDC) verifSnapshot(try bool) (VerifSnapshot, bool) {
 	}
 	e.replicateEntityMap.RUnlock()
 	return s, true
+}
+
+// verifNilIfDone: see cdcreader.VerifNilIfDone (replayable choice between a cancelled context and pending data).
+func verifNilIfDone[C any](ctx context.Context, ch C, site string) C {
+	return cdcreader.VerifNilIfDone(ctx, ch, site)
+}
+
+// VerifOrderedPositions, when set by a simulation harness, makes the checkpoint updates of one batch be written in
+// sorted key order instead of Go's (unreproducible) map iteration order.
+var VerifOrderedPositions bool
+
+func verifPositionOrder(m map[string]*UpdatePositionInfo) []string {
+	if !VerifOrderedPositions {
+		return nil
+	}
+	keys := make([]string, 0, len(m))
+	for k := range m {
+		keys = append(keys, k)
+	}
+	sort.Strings(keys)
+	return keys
 }
